@@ -424,8 +424,14 @@ class FromArgs(Generic[T]):
     _hash_fn: Callable[[T], Hashable] = field(default=hash)
 
     def __setitem__(self, i: int, arg: T) -> None:
-        if i in self._i_to_arg:
-            assert self._i_to_arg[i] == arg
+        # Compare the hashes, so that different constants which are equal, like 1 and
+        # True, are not stored at the same index
+        if i in self._i_to_arg and self._hash_fn(self._i_to_arg[i]) != self._hash_fn(
+            arg
+        ):
+            raise ValueError(
+                f"Conflicting args at index {i}: {self._i_to_arg[i]!r} and {arg!r}"
+            )
         self._i_to_arg[i] = arg
         self._arg_to_i[self._hash_fn(arg)] = i
 
@@ -436,6 +442,10 @@ class FromArgs(Generic[T]):
         return bool(self._i_to_arg)
 
     def to_tuple(self) -> Tuple[T, ...]:
+        if set(self._i_to_arg) != set(range(len(self._i_to_arg))):
+            raise ValueError(
+                f"Index overrides leave gaps in the args: {sorted(self._i_to_arg)}"
+            )
         return tuple(v for _, v, in sorted(self._i_to_arg.items()))
 
     def add(self, arg: T, index_override: Optional[int]) -> int:
